@@ -34,6 +34,9 @@ def gen_cases(tier, seed, configs):
         sc = (r.choice([0, 1, 2, 2, 3]), r.randrange(1, 10 ** 6), r.choice([1, 2, 4, 16]))
         scheds.append(sc)
         body += ["mark s%d" % (len(scheds) - 1), "buildtsm bs=%d mode=%d" % (bs, mode), "exec starputsm flags=63 upper=%d sched=%d seed=%d workers=%d" % ((upper,) + sc), "dump tsmvalues"]
+        sc = (r.choice([0, 1, 2, 2, 3]), r.randrange(1, 10 ** 6), r.choice([1, 2, 4, 16]))
+        scheds.append(sc)
+        body += ["mark s%d" % (len(scheds) - 1), "buildtsm bs=%d mode=%d" % (bs, mode), "exec specxtsm flags=63 upper=%d sched=%d seed=%d workers=%d" % ((upper,) + sc), "dump tsmvalues"]
         L = H - 1
         for which, pts in (("S", src), ("T", tgt)):
             leaves = sorted(set(gen.encode(D, L, c) for c in pts))
@@ -151,9 +154,9 @@ def evaluate(res):
         if seg is None:
             continue
         if sorted(core.section(seg, "V ")) != cv:
-            orc.append(("C09:omp-values", "task-based target/source executor (%s, schedule %r) leaves values different from the sequential one" % ("OpenMP" if si < 2 else "StarPU/mock", sc)))
+            orc.append(("C09:omp-values", "task-based target/source executor (%s, schedule %r) leaves values different from the sequential one" % ("OpenMP" if si < 2 else ("StarPU/mock" if si == 2 else "Specx/mock"), sc)))
         elif core.elems_of_calls(seg) != ce:
-            orc.append(("C09:omp-elems", "task-based target/source executor (%s, schedule %r) performs different elementary interactions" % ("OpenMP" if si < 2 else "StarPU/mock", sc)))
+            orc.append(("C09:omp-elems", "task-based target/source executor (%s, schedule %r) performs different elementary interactions" % ("OpenMP" if si < 2 else ("StarPU/mock" if si == 2 else "Specx/mock"), sc)))
         orc += [("C09:X", x) for x in core.section(seg, "X ")]
     orc += [("C09:X", x) for x in core.section(seq, "X ") + core.section(cs.get("", []) if "" in cs else [], "X ")]
     head = [ln for ln in res.cpp if ln[:2] in ("sS", "tS") or ln.startswith("F ")]
